@@ -725,50 +725,57 @@ class GraphReplayer:
                 root = B.root()['g0']
                 if identify(root, 'from the root mapping') != 0:
                     raise Mismatch('load', 'root', 'the root mapping does not lead to node 0')
-                for n in sorted(self.kinds):
-                    oid = self.nodes[n]._p_oid
-                    want = view[n]
-                    if oid is None:
-                        continue
-                    try:
-                        ob = B.get(oid)
-                        ob._p_activate()       # a pooled connection may still hold a ghost of a packed-away object
-                    except POSKeyError:
-                        ob = None
-                    if (ob is not None) != want['p']:
-                        raise Mismatch('load', 'present' if ob is not None else 'absent',
-                                       'node %d in another connection: spec %s, implementation %s' % (
-                                           n, want['p'], ob is not None))
-                    if ob is None:
-                        continue
-                    if identify(ob, 'by get(oid)') != n:
-                        raise Mismatch('load', 'wrong-node', 'get(oid of node %d) gave another node' % n)
+                # twice: as loaded, and again after the connection's cache has deactivated every object it holds
+                # (cache garbage collection between two accesses; the objects are still referenced from `seen`)
+                for again in (False, True):
+                    if again:
+                        if not self.opts.get('regc', True):
+                            break
+                        B.cacheMinimize()
+                    for n in sorted(self.kinds):
+                        oid = self.nodes[n]._p_oid
+                        want = view[n]
+                        if oid is None:
+                            continue
+                        try:
+                            ob = B.get(oid)
+                            ob._p_activate()       # a pooled connection may still hold a ghost of a packed-away object
+                        except POSKeyError:
+                            ob = None
+                        if (ob is not None) != want['p']:
+                            raise Mismatch('load', 'present' if ob is not None else 'absent',
+                                           'node %d in another connection: spec %s, implementation %s' % (
+                                               n, want['p'], ob is not None))
+                        if ob is None:
+                            continue
+                        if identify(ob, 'by get(oid)') != n:
+                            raise Mismatch('load', 'wrong-node', 'get(oid of node %d) gave another node' % n)
 
-                    def resolve(holder, ref, n=n):
-                        if isinstance(ref, WeakRef):
-                            kind = 'weak'
-                            target = ref()
-                            if target is None:
-                                db = getattr(ref, 'database_name', None) or '1'
-                                return (self.ids.get((db, ref.oid), 'unknown:%r' % (ref.oid,)), kind, holder, False)
-                        else:
-                            kind, target = 'strong', ref
-                        d = identify(target, 'from node %d through a %s reference in %s' % (n, kind, holder))
-                        st = self._state_of(d, target)
-                        if st.get('name') != node_name(d):
-                            raise Mismatch('load', 'wrong-state', 'oid of node %d carries the state of %r' % (d, st.get('name')))
-                        return (d, kind, holder, True)
-                    st = self._state_of(n, ob)
-                    name, tag, edges, problems = decode_state(
-                        st, lambda v: isinstance(v, (persistent.Persistent, WeakRef)), resolve)
-                    wedges = edge_tuples(want['e'], alive=True)
-                    k = self.kinds[n]
-                    if has_newargs(k) and tag != node_name(n):
-                        problems.append('tag %r' % (tag,))
-                    if problems or edges != wedges or name != node_name(n):
-                        raise Mismatch('load', _edge_item(edges ^ wedges) if edges ^ wedges else 'state',
-                                       'node %d (%s) loaded in another connection: spec %s, implementation %s %s' % (
-                                           n, k, sorted(wedges), sorted(edges, key=repr), problems))
+                        def resolve(holder, ref, n=n):
+                            if isinstance(ref, WeakRef):
+                                kind = 'weak'
+                                target = ref()
+                                if target is None:
+                                    db = getattr(ref, 'database_name', None) or '1'
+                                    return (self.ids.get((db, ref.oid), 'unknown:%r' % (ref.oid,)), kind, holder, False)
+                            else:
+                                kind, target = 'strong', ref
+                            d = identify(target, 'from node %d through a %s reference in %s' % (n, kind, holder))
+                            st = self._state_of(d, target)
+                            if st.get('name') != node_name(d):
+                                raise Mismatch('load', 'wrong-state', 'oid of node %d carries the state of %r' % (d, st.get('name')))
+                            return (d, kind, holder, True)
+                        st = self._state_of(n, ob)
+                        name, tag, edges, problems = decode_state(
+                            st, lambda v: isinstance(v, (persistent.Persistent, WeakRef)), resolve)
+                        wedges = edge_tuples(want['e'], alive=True)
+                        k = self.kinds[n]
+                        if has_newargs(k) and tag != node_name(n):
+                            problems.append('tag %r' % (tag,))
+                        if problems or edges != wedges or name != node_name(n):
+                            raise Mismatch('load', _edge_item(edges ^ wedges) if edges ^ wedges else 'state',
+                                           'node %d (%s) loaded in another connection: spec %s, implementation %s %s' % (
+                                               n, k, sorted(wedges), sorted(edges, key=repr), problems))
                 # export: a consumer of reference extraction (works on records, classes not needed)
                 for n in sorted(self.kinds):
                     if not view[n]['p']:
